@@ -156,3 +156,114 @@ def canonical_names(bases):
 
 def basename(s):
     return s.rstrip("0123456789")
+
+
+# ---------------------------------------------------------------------------
+# elements and sequences
+
+
+def dyadic(r, lo=-1.0, hi=1.0, bits=6):
+    k = 1 << bits
+    return r.randint(int(lo * k), int(hi * k)) / k
+
+
+class SeqGen:
+    """builds op programs for elements and sequences on top of G"""
+
+    def __init__(self, g):
+        self.g = g
+        self.r = g.r
+
+    def element(self, eid, SR, N, chans, raw_p=0.3, kinds=("ramp",), flags_p=0.0, markers=True, seg_markers=True,
+                waits=0.0, raw_markers=True, nseg=(1, 4)):
+        """ops creating element `eid` with the given channels (in the given order), every channel
+        N samples at SR.  Returns ops."""
+        r = self.r
+        ops = [{"op": "el.new", "id": eid}]
+        for ch in chans:
+            if r.random() < raw_p:
+                wfm = [q(dyadic(r)) for _ in range(N)]
+                kw = []
+                if raw_markers:
+                    kw = [["m1", [r.choice([0, 1]) if r.random() < 0.2 else 0 for _ in range(N)]],
+                          ["m2", [r.choice([0, 1]) if r.random() < 0.2 else 0 for _ in range(N)]]]
+                ops.append({"op": "el.addArray", "id": eid, "ch": ch, "wfm": wfm, "SR": enc(SR), "kw": kw})
+            else:
+                bid = self.g.fresh("b")
+                bops, info = self.g.blueprint(bid, SR=SR, nseg=nseg, kinds=kinds, waits=0.0, markers=markers, total=N)
+                if waits and r.random() < waits and N >= 8:
+                    # replace by: ramp, waituntil, ramp with whole-sample boundaries
+                    a = r.randint(2, N // 2 - 2) if N // 2 - 2 >= 2 else 2
+                    w = r.randint(a + 2, N - 2)
+                    bops = [{"op": "bp.new", "id": bid},
+                            {"op": "bp.insert", "id": bid, "pos": -1, "fn": "ramp", "args": [enc(dyadic(r)), enc(dyadic(r))], "dur": enc(a / SR), "name": None},
+                            {"op": "bp.insert", "id": bid, "pos": -1, "fn": "waituntil", "args": [enc(w / SR)], "dur": None, "name": None},
+                            {"op": "bp.insert", "id": bid, "pos": -1, "fn": "ramp", "args": [enc(dyadic(r)), enc(dyadic(r))], "dur": enc((N - w) / SR), "name": None},
+                            {"op": "bp.setSR", "id": bid, "SR": enc(SR)}]
+                    info = {"SR": SR, "counts": [a, w - a, N - w], "N": N}
+                    if markers:
+                        bops += self.g.markers(bid, info)
+                if seg_markers:
+                    names = canonical_names([basename(o["name"]["s"]) if o.get("name") else
+                                             (o["fn"] if isinstance(o["fn"], str) else o["fn"]["name"]).rstrip("0123456789")
+                                             for o in bops if o["op"] == "bp.insert"])
+                    bops += self.g.seg_marker_ops(bid, names, info)
+                ops += bops
+                ops.append({"op": "el.addBP", "id": eid, "ch": ch, "bp": bid})
+            if r.random() < flags_p:
+                ops.append({"op": "el.addFlags", "id": eid, "ch": ch,
+                            "flags": [enc(r.choice([0, 1, 2, 3, 4, "", "H", "L", "T", "P"])) for _ in range(4)]})
+        return ops
+
+    def sequence(self, sid, npos=(1, 3), nch=(1, 3), SR=None, N=None, raw_p=0.3, kinds=("ramp",), flags_p=0.0,
+                 delays_p=0.0, filters_p=0.0, offsets=True, amp=None, sub_p=0.0, seq_p=0.3, permute=True,
+                 waits=0.0, markers=True, same_N=False, chan_pool=None, nseg=(1, 4)):
+        """ops creating a consistent sequence `sid`.  Returns (ops, info)."""
+        r = self.r
+        SR = SR if SR is not None else r.choice([1, 10, 100, 1e3, 2.5, 1e6, 1e9])
+        pool = chan_pool or [1, 2, 3, 4, "A", "B", "ch1"]
+        chans = r.sample(pool, r.randint(*nch))
+        P = r.randint(*npos)
+        ops = [{"op": "sq.new", "id": sid}, {"op": "sq.setSR", "id": sid, "v": enc(SR)}]
+        n_common = N if N is not None else r.randint(4, 30)
+        info = {"SR": SR, "chans": chans, "P": P, "subs": {}, "els": {}}
+        for p in range(1, P + 1):
+            n = n_common if (same_N or N is not None) else r.randint(4, 30)
+            if r.random() < sub_p:
+                sub = self.g.fresh("s")
+                ops += [{"op": "sq.new", "id": sub}, {"op": "sq.setSR", "id": sub, "v": enc(SR)}]
+                K = r.randint(1, 3)
+                for p2 in range(1, K + 1):
+                    eid = self.g.fresh("e")
+                    order = r.sample(chans, len(chans)) if permute else list(chans)
+                    ops += self.element(eid, SR, n, order, raw_p=raw_p, kinds=kinds, flags_p=flags_p, waits=waits, markers=markers, nseg=nseg)
+                    ops.append({"op": "sq.addElement", "id": sub, "pos": p2, "el": eid})
+                    if r.random() < seq_p:
+                        ops.append({"op": "sq.setSeq", "id": sub, "pos": p2, "field": r.choice(["twait", "nrep", "jump_input", "jump_target", "goto"]), "v": r.randint(0, 3)})
+                ops.append({"op": "sq.addSub", "id": sid, "pos": p, "sub": sub})
+                info["subs"][p] = (sub, K)
+            else:
+                eid = self.g.fresh("e")
+                order = r.sample(chans, len(chans)) if permute else list(chans)
+                ops += self.element(eid, SR, n, order, raw_p=raw_p, kinds=kinds, flags_p=flags_p, waits=waits, markers=markers, nseg=nseg)
+                ops.append({"op": "sq.addElement", "id": sid, "pos": p, "el": eid})
+                info["els"][p] = eid
+            if r.random() < seq_p:
+                ops.append({"op": "sq.setSeq", "id": sid, "pos": p, "field": r.choice(["twait", "nrep", "jump_input", "jump_target", "goto"]),
+                            "v": r.randint(0, P)})
+        for ch in chans:
+            ops.append({"op": "sq.setAmp", "id": sid, "ch": ch, "v": enc(amp if amp is not None else r.choice([4, 5.0, 8, 10.5]))})
+            if offsets:
+                ops.append({"op": "sq.setOff", "id": sid, "ch": ch, "v": enc(r.choice([0, 0.25, -0.5, 0.0]))})
+            if r.random() < delays_p:
+                d = r.choice([0, 2, 3, 5, 29, 7])
+                ops.append({"op": "sq.setDelay", "id": sid, "ch": ch, "v": enc(d / SR)})
+            if r.random() < filters_p:
+                kind = r.choice(["HP", "LP"])
+                order = r.choice([-2, -1, 1, 2, 3])
+                fc = SR * r.choice([1e-3, 1e-2, 0.12, 0.4])
+                if r.random() < 0.5:
+                    ops.append({"op": "sq.setFilter", "id": sid, "ch": ch, "kind": kind, "order": order, "orderIsInt": True, "f_cut": enc(fc), "tau": None})
+                else:
+                    ops.append({"op": "sq.setFilter", "id": sid, "ch": ch, "kind": kind, "order": order, "orderIsInt": True, "f_cut": None, "tau": enc(1 / fc)})
+        return ops, info
